@@ -477,8 +477,14 @@ func TestVerif_C32(t *testing.T) {
 		}
 		c.Sample(map[string]any{"config": "n6-i10-push0-agg2", "history": []string{"add:1:now-2", "add:2:now-2", "add:1:head", "roll:0:", "add:1:oldest", "roll:0:", "emit:0:"},
 			"oracle": "List/Statistics over all 49 aligned ranges equal the sums of retained accepted flows; each emission equals the flows accepted into its window so far; emitted windows are disjoint"})
-		for _, g := range c32Configs(c) {
-			hbfs.Explore(c, c32Spec(g, c.Pick(5, 7), false))
+		for i, g := range c32Configs(c) {
+			depth := c.Pick(5, 6)
+			if i == 1 {
+				depth = c.Pick(4, 6)
+			} else if i == 2 {
+				depth = 5
+			}
+			hbfs.Explore(c, c32Spec(g, depth, false))
 		}
 		hbfs.Explore(c, c32Spec(c32Configs(c)[0], c.Pick(3, 4), true))
 	})
